@@ -80,7 +80,9 @@ Fixpoint newest_pos (d : doc) (hs : list live) (n : nat) : nat :=
   end.
 Definition adopt (s : st) (f : option doc) : st :=
   match f with
-  | None => s
+  | None =>
+      mkS (up s) (broken s) (live_ s) (next_id s) (threads s) (pending s) (lock s)
+          (mkFS None (tmps (fs s))) (hist s) (acks s) 0 (commits s)
   | Some d =>
       let c := mkF d (doc_size d) true in
       mkS (up s) (broken s) (live_ s) (next_id s) (threads s) (pending s) (lock s)
@@ -89,7 +91,7 @@ Definition adopt (s : st) (f : option doc) : st :=
 
 (* ---------------------------------------------------------------- recorded history *)
 Inductive hop :=
-| HOp (o : op) (status : N) (seen : doc)      (* answered request, then GET /stats *)
+| HOp (o : op) (status : N) (seen : option doc)   (* answered request, then GET /stats (None: the daemon died first) *)
 | HIdle (file : option doc) (renames : N).    (* exact idleness reached: nsqd.dat content, persist:after-rename hits *)
 
 Inductive boot_res :=
@@ -187,14 +189,25 @@ Definition spec_post (o : op) (v : doc) : list doc :=
   end.
 
 (* the views the daemon itself reported since the last persist it acknowledged *)
+Definition last_of (acc : list doc) : list doc := match rev acc with x :: _ => [x] | [] => [] end.
+(* the view after an answered request that could not be followed by /stats: its specified effect *)
+Definition view_after (o : op) (st : N) (seen : option doc) (acc : list doc) : list doc :=
+  match seen with
+  | Some v => [v]
+  | None => match rev acc with
+            | p :: _ => if N.eqb st 200 then last_of (spec_post o p) else [p]
+            | [] => [] end
+  end.
 Fixpoint views_since_sync (ops : list hop) (acc : list doc) : list doc :=
   match ops with
   | [] => acc
-  | HOp o st v :: r => if is_sync_op o && N.eqb st 200 then views_since_sync r [v] else views_since_sync r (acc ++ [v])
-  | HIdle _ _ :: r => views_since_sync r (match rev acc with x :: _ => [x] | [] => [] end)
+  | HOp o st seen :: r =>
+      if is_sync_op o && N.eqb st 200 then views_since_sync r (view_after o st seen acc)
+      else views_since_sync r (acc ++ view_after o st seen acc)
+  | HIdle _ _ :: r => views_since_sync r (last_of acc)
   end.
 Definition last_view (c : cycle) : option doc :=
-  match rev (flat_map (fun h => match h with HOp _ _ v => [v] | _ => [] end) (cy_ops c)) with
+  match rev (flat_map (fun h => match h with HOp _ _ (Some v) => [v] | _ => [] end) (cy_ops c)) with
   | v :: _ => Some v
   | [] => match cy_boot c with BootOK v => Some v | _ => None end
   end.
@@ -261,7 +274,8 @@ Definition monitor_cycle (c : cycle) (next_boot : option boot_res) : bool :=
   && (fix idle_ok (ops : list hop) (last : option doc) : bool :=
         match ops with
         | [] => true
-        | HOp _ _ v :: r => idle_ok r (Some v)
+        | HOp _ _ (Some v) :: r => idle_ok r (Some v)
+        | HOp _ _ None :: r => idle_ok r last
         | HIdle f _ :: r => match f, last with
                             | Some d, Some v => doc_equiv d (persistable v)
                             | _, _ => false end && idle_ok r last
@@ -281,15 +295,31 @@ Fixpoint monitor_cycles (cs : list cycle) : bool :=
   end.
 
 (* ---------------------------------------------------------------- agreement with the model *)
-Definition last_status (s : st) : N := match acks s with (_, x) :: _ => x | [] => 0%N end.
+Definition status_of (i : N) (s : st) : N :=
+  match find (fun a => N.eqb (fst a) i) (acks s) with Some (_, x) => x | None => 0%N end.
+
+(* Topic.DeleteExistingChannel: when the last channel of an EPHEMERAL topic is gone the topic
+   deletes itself (go deleter.Do(DeleteExistingTopic)); the driver waits until /stats shows it *)
+Definition auto_delete (o : op) (status : N) (s : st) (i : N) : st :=
+  match o with
+  | ODeleteChan t _ =>
+      if N.eqb status 200 && eph t then
+        match find_topic t (live_ s) with
+        | Some tp => match t_chans tp with [] => run_op s i (ODeleteTopic t) | _ => s end
+        | None => s
+        end
+      else s
+  | _ => s
+  end.
 
 (* returns (state, agree so far, next thread id) *)
 Fixpoint agree_ops (ops : list hop) (s : st) (i : N) : st * bool :=
   match ops with
   | [] => (s, true)
   | HOp o status seen :: r =>
-      let s1 := run_op s i o in
-      let ok := N.eqb (last_status s1) status && doc_equiv seen (view (live_ s1))
+      let s1 := auto_delete o status (run_op s i o) (i + 500000)%N in
+      let ok := N.eqb (status_of i s1) status
+                && match seen with Some v => doc_equiv v (view (live_ s1)) | None => true end
                 && match get_thread i (threads s1) with None => true | Some _ => false end in
       let '(s2, ok2) := agree_ops r s1 (N.succ i) in (s2, ok && ok2)
   | HIdle f renames :: r =>
